@@ -632,8 +632,8 @@ func genVisoOps(r *rng, total int64, n int, bounds []int64) []visoOp {
 		switch r.intn(10) {
 		case 0, 1, 2, 3, 4:
 			off := pickOff()
-			if off < 0 {
-				off = 0
+			if off < 0 && !r.chance(30) {
+				off = 0 // a negative offset now and then: ReadAt must refuse it, not index with it
 			}
 			ops = append(ops, visoOp{kind: 'A', n: r.pick(1, 2, 100, 2047, 2048, 2049, 4096, 65536, 70000, 0), off: off})
 		case 5, 6, 7:
